@@ -122,7 +122,7 @@ func (in *Interp) builtin(g *G, fr *Frame, b *ssa.Builtin, args []Value, call *s
 				in.raceTouch(&out[len(xs)+i], true)
 				out[len(xs)+i] = copyVal(v)
 			}
-			return Value{K: KSlice, R: &SliceV{S: out}}
+			return Value{K: KSlice, R: &SliceV{S: normKeyCells(out)}}
 		}
 		elT := call.Args[0].Type().Underlying().(*types.Slice).Elem()
 		nc := growCap(int(sizes.Sizeof(elT)), len(xs), cap(xs), len(ys))
@@ -135,7 +135,7 @@ func (in *Interp) builtin(g *G, fr *Frame, b *ssa.Builtin, args []Value, call *s
 		for i := n; i < nc; i++ {
 			full[i] = zero(elT)
 		}
-		return Value{K: KSlice, R: &SliceV{S: out}}
+		return Value{K: KSlice, R: &SliceV{S: normKeyCells(out)}}
 	case "copy":
 		x, y := args[0], args[1]
 		var xs, ys []Value
